@@ -3,8 +3,9 @@
 (* Stage (3) for C20: trace validation.  Every record of the shard is a    *)
 (* behaviour recorded from the real pymbolic.imperative:                   *)
 (*   k = "hist": init stream + events (fuse / dis / daf with operand X,    *)
-(*               side, filter and the logged outputs R, m, sg, B2) + the   *)
-(*               dot export of the final program                           *)
+(*               side, filter and the logged outputs R, m, sg, B2, and the *)
+(*               two operand lists read again after the call, A1, B1) +    *)
+(*               the dot export of the final program                       *)
 (*   k = "rw"  : one statement with the reported read / written sets       *)
 (*   k = "dot" : one stream with the edges found in the dot text           *)
 (* For "hist" records TLC steps the state machine of C20_Fusion: one TLC   *)
@@ -38,6 +39,10 @@ OpB(ev) == IF ev.side = "L" THEN ev.X ELSE cur
 InputsOK(ev) == /\ WellFormed(OpA(ev)) /\ WellFormed(OpB(ev))
                 /\ StreamOK(OpA(ev)) /\ StreamOK(OpB(ev))
 
+\* the frame observation: the two operand lists as the driver read them again AFTER the call
+\* (o.A1, o.B1) against the operands the call was given
+Frame(ev) == FrameClause(OpA(ev), OpB(ev), ev.out.A1, ev.out.B1)
+
 \* the clause of the property (C20_Imperative) the logged outputs contradict, or "OK"
 Clause(ev) ==
     LET SA == OpA(ev)  SB == OpB(ev)  o == ev.out IN
@@ -45,18 +50,22 @@ Clause(ev) ==
     ELSE IF o.r = "err" THEN ev.op \o "-raised"
     ELSE IF o.r # "ok" THEN ev.op \o "-unserialisable-output"
     ELSE IF ~PairsOK(o.m) \/ ~PairsOK(o.sg) THEN "SKIP"
-    ELSE CASE ev.op = "fuse" -> FuseClause(SA, SB, o.R, MapOf(o.m))
-           [] ev.op = "dis"  -> DisClause(SA, SB, ev.flt, o.B2, MapOf(o.sg))
-           [] ev.op = "daf"  ->
-                LET sg == MapOf(o.sg)
-                    SB2 == RenameStream(SB, sg)
-                    d == DisClause(SA, SB, ev.flt, SB2, sg)
-                IN  IF d # "OK" THEN d ELSE FuseClause(SA, SB2, o.R, MapOf(o.m))
+    ELSE LET c == CASE ev.op = "fuse" -> FuseClause(SA, SB, o.R, MapOf(o.m))
+                    [] ev.op = "dis"  -> DisClause(SA, SB, ev.flt, o.B2, MapOf(o.sg))
+                    [] ev.op = "daf"  ->
+                         LET sg == MapOf(o.sg)
+                             SB2 == RenameStream(SB, sg)
+                             d == DisClause(SA, SB, ev.flt, SB2, sg)
+                         IN  IF d # "OK" THEN d ELSE FuseClause(SA, SB2, o.R, MapOf(o.m))
+             f == Frame(ev)
+         IN  \* the outputs first (as before), then: were the operands left as they were?
+             IF c # "OK" THEN c ELSE IF f # "OK" THEN ev.op \o "-" \o f ELSE "OK"
 
 \* can the state machine take this event with the logged choices and reach the logged program?
 ModelTakes(ev) ==
     LET SA == OpA(ev)  SB == OpB(ev)  o == ev.out IN
     /\ InputsOK(ev) /\ o.r = "ok" /\ PairsOK(o.m) /\ PairsOK(o.sg)
+    /\ Frame(ev) = "OK"
     /\ CASE ev.op = "fuse" -> /\ MapAdmissible(SA, SB, MapOf(o.m))
                               /\ StreamEq(Fused(SA, SB, MapOf(o.m)), o.R)
          [] ev.op = "dis"  -> /\ RenamingAdmissible(SA, SB, ev.flt, MapOf(o.sg))
